@@ -65,7 +65,7 @@ theorem mainSends_spec (s : State) :
     Same s (mainSends s).1.1 ∧
     ((mainSends s).2 = true → (mainSends s).1.1.conn = s.conn) ∧
     ((mainSends s).2 = false → (mainSends s).1.1.conn = none) := by
-  obtain ⟨cfg, fsm, pc, conn, nextId, restart, teardown, attempts, rib, rq, rp, ep, ka, up⟩ := s
+  obtain ⟨cfg, fsm, pc, conn, nextId, restart, teardown, attempts, rib, rq, rp, ep, ka, up, dead⟩ := s
   simp only [mainSends, W.andSend, sendIf, sendOn]
   cases conn with
   | none => by_cases h1 : rq > 0 <;> cases rp <;> cases ep <;> simp [h1] <;> exact ⟨rfl, rfl, rfl, rfl, rfl, rfl, rfl, rfl⟩
@@ -118,12 +118,12 @@ theorem mainIter_inv (m : Option Msg) (s : State) (h : Inv s) (hf : s.fsm = .est
 /-! ## a message is handed to the coroutine -/
 
 theorem deliver_awaitOpen_inv (m : Msg) (s : State) (h : Inv s) (c : Nat) (k : Conn)
-    (hp : s.pc = .awaitOpen c) (hc : s.conn = some k) (hk : k.id = c) : Inv (deliver m s).1 := by
+    (hp : s.pc = .awaitOpen c) (hc : s.conn = some k) (hk : k.id = c) : Inv (deliverAlive m s).1 := by
   obtain ⟨hf, hos⟩ := h.awaitOpen c k hp hc hk
   have hu : s.isUp = false := h.isUp_false (by rw [hp]; simp) (by rw [hf]; simp)
   have hup : s.isUp = true → s.fsm = .established := by rw [hu]; simp
   have hid := h.connId k hc
-  unfold deliver
+  unfold deliverAlive
   rw [hp]
   simp only []
   cases m with
@@ -150,12 +150,12 @@ theorem deliver_awaitOpen_inv (m : Msg) (s : State) (h : Inv s) (c : Nat) (k : C
   | refresh => exact inv_of_ended (onNotify_ended _ _ _ hup)
 
 theorem deliver_awaitKa_inv (m : Msg) (s : State) (h : Inv s) (c : Nat) (k : Conn)
-    (hp : s.pc = .awaitKa c) (hc : s.conn = some k) (hk : k.id = c) : Inv (deliver m s).1 := by
+    (hp : s.pc = .awaitKa c) (hc : s.conn = some k) (hk : k.id = c) : Inv (deliverAlive m s).1 := by
   obtain ⟨hf, hos, hor⟩ := h.awaitKa c k hp hc hk
   have hu : s.isUp = false := h.isUp_false (by rw [hp]; simp) (by rw [hf]; simp)
   have hup : s.isUp = true → s.fsm = .established := by rw [hu]; simp
   have hid := h.connId k hc
-  unfold deliver
+  unfold deliverAlive
   rw [hp]
   simp only []
   cases m with
@@ -163,13 +163,22 @@ theorem deliver_awaitKa_inv (m : Msg) (s : State) (h : Inv s) (c : Nat) (k : Con
     simp only []
     cases htd : s.teardown with
     | none =>
-      have : (fsmTo Fsm.established (markConn (fun k => { k with kaRecv := true }) s) ⊳ enterMain c).1 =
-          { s with fsm := .established, conn := some { k with kaRecv := true }, routesPending := s.ribNonEmpty,
-                   eorPending := true, kaSeen := false, isUp := true, pc := .mainLoop c } := by
-        simp [fsmTo, markConn, hc, enterMain, htd]
-      rw [this]
-      subst hk
-      exact inv_main (k := { k with kaRecv := true }) rfl rfl rfl hos hor rfl hid
+      cases hdead : (s.cfg.changes && s.dead) with
+      | false =>
+        have : (fsmTo Fsm.established (markConn (fun k => { k with kaRecv := true }) s) ⊳ enterMain c).1 =
+            { s with fsm := .established, conn := some { k with kaRecv := true }, routesPending := s.ribNonEmpty,
+                     eorPending := true, kaSeen := false, isUp := s.cfg.changes, pc := .mainLoop c } := by
+          simp [fsmTo, markConn, hc, enterMain, htd, hdead]
+        rw [this]
+        subst hk
+        exact inv_main (k := { k with kaRecv := true }) rfl rfl rfl hos hor rfl hid
+      | true =>
+        -- `processes.up` raises ProcessError
+        have : (fsmTo Fsm.established (markConn (fun k => { k with kaRecv := true }) s) ⊳ enterMain c).1 =
+            (onNotify 6 0 { s with fsm := .established, conn := some { k with kaRecv := true } }).1 := by
+          simp [fsmTo, markConn, hc, enterMain, htd, hdead]
+        rw [this]
+        exact inv_of_ended (onNotify_ended _ _ _ (fun _ => rfl))
     | some code =>
       have : (fsmTo Fsm.established (markConn (fun k => { k with kaRecv := true }) s) ⊳ enterMain c).1 =
           (onNotify 6 3 { s with fsm := .established, conn := some { k with kaRecv := true } }).1 := by
@@ -184,8 +193,8 @@ theorem deliver_awaitKa_inv (m : Msg) (s : State) (h : Inv s) (c : Nat) (k : Con
   | update => exact inv_of_ended (onNotify_ended _ _ _ hup)
   | refresh => exact inv_of_ended (onNotify_ended _ _ _ hup)
 
-theorem deliver_inv (m : Msg) (s : State) (h : Inv s) (c : Nat) (k : Conn)
-    (haw : awaited s = some c) (hc : s.conn = some k) (hk : k.id = c) : Inv (deliver m s).1 := by
+theorem deliverAlive_inv (m : Msg) (s : State) (h : Inv s) (c : Nat) (k : Conn)
+    (haw : awaited s = some c) (hc : s.conn = some k) (hk : k.id = c) : Inv (deliverAlive m s).1 := by
   cases hp : s.pc with
   | awaitOpen c' =>
     have : c' = c := by simpa [awaited, hp] using haw
@@ -197,12 +206,26 @@ theorem deliver_inv (m : Msg) (s : State) (h : Inv s) (c : Nat) (k : Conn)
     have : c' = c := by simpa [awaited, hp] using haw
     subst this
     have hf := (h.main _ k hp hc hk).1
-    unfold deliver; rw [hp]
+    unfold deliverAlive; rw [hp]
     exact mainIter_inv _ s h hf
   | backoff => simp [awaited, hp] at haw
   | done => simp [awaited, hp] at haw
   | passiveWait => simp [awaited, hp] at haw
   | connecting => simp [awaited, hp] at haw
+
+/-- the API process is gone and the message could not be forwarded: `ProcessError`, `_reset`. -/
+theorem onProcessError_inv (m : Msg) (s : State) (h : Inv s) (hd : s.pc ≠ .done) : Inv (onProcessError m s).1 := by
+  unfold onProcessError
+  rw [andThen_fst]
+  exact inv_of_ended (onOther_ended _ (h.hup hd))
+
+theorem deliver_inv (m : Msg) (s : State) (h : Inv s) (c : Nat) (k : Conn)
+    (haw : awaited s = some c) (hc : s.conn = some k) (hk : k.id = c) : Inv (deliver m s).1 := by
+  unfold deliver
+  split
+  · refine onProcessError_inv m s h ?_
+    intro hd; simp [awaited, hd] at haw
+  · exact deliverAlive_inv m s h c k haw hc hk
 
 theorem readErr_inv (s : State) (h : Inv s) (hd : s.pc ≠ .done) : Inv (readErr s).1 := by
   unfold readErr
@@ -287,6 +310,22 @@ theorem handleConnection_inv (s : State) (h : Inv s) : Inv (handleConnection s).
   unfold handleConnection
   split
   · exact h.bump
+  split
+  · -- `processes.connected` raises: what `peer.proto` was is closed, the new connection is dropped
+    rw [andThen_fst]
+    cases hc : s.conn with
+    | none =>
+      simp only [Option.isSome_none, Bool.false_eq_true, if_false]
+      exact h.bump
+    | some k =>
+      simp only [Option.isSome_some, if_true, closeP_fst]
+      refine inv_idle rfl (by simp) ?_ (by simp) ?_ (by simp)
+      · intro c haw
+        have := h.awaitId c (by simpa [awaited] using haw)
+        exact ⟨by simp; omega, by simp⟩
+      · intro hu
+        simp only [Bool.and_eq_true] at hu
+        exact quiet_up_done (s := s) h hu.1 hu.2
   · unfold adopt
     simp only [andThen_fst]
     by_cases hp : s.pc = .passiveWait
@@ -377,8 +416,12 @@ theorem react_inv (s : State) (e : Event) (h : Inv s) : Inv (react s e).1 := by
     split
     · rename_i hp
       have hf := h.connectingIdle hp
-      rw [andThen_fst]
-      exact afterConnect_inv _ { id := s.nextId } rfl (by simp) (h.isUp_false (by rw [hp]; simp) (by rw [hf]; simp))
+      have hu := h.isUp_false (by rw [hp]; simp) (by rw [hf]; simp)
+      split
+      · rw [andThen_fst]
+        exact inv_of_ended (onOther_ended _ (by simp [hu]))
+      · rw [andThen_fst]
+        exact afterConnect_inv _ { id := s.nextId } rfl (by simp) hu
     · exact h
   | connectFail =>
     simp only [react]
@@ -436,6 +479,10 @@ theorem react_inv (s : State) (e : Event) (h : Inv s) : Inv (react s e).1 := by
         · rename_i c' hp'
           exact inv_of_ended (onNotify_ended _ _ _ (hx.hup (fun hd' => absurd (hp'.symm.trans hd') (by simp))))
         · exact hx
+    · rename_i c hp
+      split
+      · exact h
+      · exact inv_of_ended (onNotify_ended _ _ _ (h.hup (by rw [hp]; simp)))
     · exact h
   | tick =>
     simp only [react]
@@ -456,6 +503,7 @@ theorem react_inv (s : State) (e : Event) (h : Inv s) : Inv (react s e).1 := by
   | stop => exact stop_inv s h
   | queueRefresh => exact h.congr rfl rfl rfl rfl rfl
   | announce => exact h.congr rfl rfl rfl rfl rfl
+  | apiDies => exact h.congr rfl rfl rfl rfl rfl
 
 theorem step_inv (s : State) (e : Event) (h : Inv s) : Inv (step s e).1 := by
   unfold step
